@@ -682,10 +682,12 @@ Section Sep.
       intros w' _ Iw' _. repeat split; auto; apply Iw'.
     - (* Evaluate *)
       destruct (getroot (w_tdm w) i) as [t|] eqn:Et; [|apply Tr_refl; exact Iw].
-      destruct (nth i (w_ready w) false); [|apply Tr_refl; exact Iw].
       pose proof (getroot_ok _ _ _ R4 Et) as Ht.
-      eapply on_store_Tr with (Q := fun _ => True); [exact Iw | apply H_set_fields; exact Ht|].
-      intros w' _ Iw' _. repeat split; auto; apply Iw'.
+      assert (T1 : Tr w (fst (on_store w (set_fields t l0) (fun w' _ => w')))).
+      { eapply on_store_Tr with (Q := fun _ => True); [exact Iw | apply H_set_fields; exact Ht|].
+        intros w' _ Iw' _. repeat split; auto; apply Iw'. }
+      cbv zeta. destruct (nth i (w_ready w) false); [exact T1|].
+      destruct (on_store w (set_fields t l0) (fun w' _ => w')) as [w1 [u|e]]; exact T1.
     - (* UnblindCopy *)
       destruct (nth_error (w_exp w) i) as [e|]; [|apply Tr_refl; exact Iw].
       eapply on_store_Tr; [exact Iw | apply H_copy|].
@@ -1563,3 +1565,6 @@ Proof.
   destruct fs as [|q fs']; [|reflexivity].
   destruct (tf x) as [|p r]; [symmetry; apply He; reflexivity | cbn in Emap; discriminate].
 Qed.
+
+Lemma K_helper_bodies : helper_bodies_pinned = true.
+Proof. reflexivity. Qed.
